@@ -101,6 +101,9 @@ class Tree:
 class Chain:
     nxt: typing.Optional["Chain"] = None
     links: tuple["Chain", ...] = ()
+class Meta(type):
+    pass
+import abc
 class TNode(typing.NamedTuple):
     # recursive structured classes that DERIVE from a standard-library container (tuple, dict)
     value: int
@@ -135,12 +138,14 @@ LEAVES = ["int", "str", "typing.Any", "object", "list", "dict", "tuple", "set", 
           # named tuples made by the collections factory: no annotations at all, the fields are pass-through positions
           "PlainNT", "PairNT",
           # recursive user classes (members of U): every container of them builds, whatever anonymous type their fields share with it
-          "Tree", "Chain", "TNode", "DTree"]
+          "Tree", "Chain", "TNode", "DTree",
+          # bare classes of classes: unresolvable positions like type[X]
+          "type", "typing.Type", "Meta", "abc.ABCMeta"]
 UNARY = ["list[{0}]", "typing.List[{0}]", "tuple[{0}, ...]", "dict[str, {0}]", "typing.Optional[{0}]", "typing.Sequence[{0}]",
          "collections.abc.Mapping[str, {0}]", "frozenset[{0}]", "G[{0}]"]
 BINARY = ["tuple[{0}, {1}]", "typing.Union[{0}, {1}]", "dict[{0}, {1}]"]
 PASS = {"typing.Any", "object", "T", "typing.Callable[[int], str]", "typing.Callable[..., typing.Any]", "collections.abc.Callable",
-        "type[int]", "typing.Type[DC]"}
+        "type[int]", "typing.Type[DC]", "type", "typing.Type", "Meta", "abc.ABCMeta"}
 KNOWN = {"tuple[()]": "emptyTupleAnnotation"}
 
 
